@@ -22,8 +22,8 @@ shrink_candidates = ec.eng_shrink
 
 def rec_case(c):
     ents = core.clist(["{| re_cmd_lc := %s; re_desc_lc := %s |}" % (core.cbytes(bytes(e["cmd_lc"] or [])), core.cbytes(bytes(e["desc_lc"] or []))) for e in (c.get("entries") or [])])
-    return "{| y_db := %s; y_qlc := %s; y_err := %s; y_panic := %s; y_res := %s |}" % (
-        ents, core.cbytes(bytes(c.get("q_lc") or [])), core.cbool(c.get("err", False)), core.cbool(bool(c.get("panic"))), ec.cres(c.get("res")))
+    return "{| y_db := %s; y_qlc := %s; y_err := %s; y_panic := %s; y_res := %s; y_res_recased := %s |}" % (
+        ents, core.cbytes(bytes(c.get("q_lc") or [])), core.cbool(c.get("err", False)), core.cbool(bool(c.get("panic"))), ec.cres(c.get("res")), ec.cres(c.get("res_recased")))
 
 
 FAMILIES = {"rec": dict(
